@@ -132,6 +132,26 @@ def leaf(name, mask, delta):
         werr = None
     except (PlanningException, NotImplementedError) as e:
         want, werr = None, type(e).__name__
+    # call sequence: a second execute of the same prepared statement either plans the second value list correctly or is refused
+    # with PlanningException - never an internal error, never a plan for other values
+    if n > 0 and gerr is None:
+        vals2 = [v + 1000 for v in vals]
+        try:
+            got2 = plan_repr(list(planner.execute_steps(vals2)))
+            tmpl, k = SKELETONS[name]
+            parts, j = [], 0
+            for i in range(k):
+                if mask[i]:
+                    parts.append(str(vals2[j])); j += 1
+                else:
+                    parts.append(str(LIT[i]))
+            want2 = plan_repr(make_planner(parse_sql(tmpl.format(*parts), 'mindsdb')).from_query().steps)
+            if got2 != want2:
+                problems.append('second execute plans %s, the inlined text of the second value list plans %s' % (got2[:2], want2[:2]))
+        except PlanningException:
+            pass
+        except Exception as e:  # noqa
+            problems.append('second execute of the prepared statement raises an internal error %s: %s' % (type(e).__name__, str(e)[:80]))
     if gerr != werr:
         problems.append('execute raises %s but planning the inlined text raises %s' % (gerr, werr))
     elif got is not None:
